@@ -7,12 +7,15 @@
 //!   c20       C20: hash-order seam exploration + seeded oracles
 //!   replay    re-execute a replay file; exit 1 + VIOLATION line if it reproduces
 
+#[cfg(feature = "e1")]
 vcore::impl_surface!(s_sim, mv_sim);
 vcore::impl_surface!(s_seq, mv_seq);
 vcore::impl_surface!(s_real, mv_real);
 
+#[cfg(feature = "e1")]
 mod c09;
 mod c20;
+#[cfg(feature = "e1")]
 mod e1;
 mod e3;
 
@@ -70,11 +73,14 @@ fn main() {
         std::panic::set_hook(Box::new(|_| {}));
     }
     // The simulator owns the scheduling points inside cells.
+    #[cfg(feature = "e1")]
     mv_sim::verif::set_sched_point(Some(sim_rayon::sim::sched_point));
 
     let args = Args::parse();
     let code = match args.cmd.as_str() {
+        #[cfg(feature = "e1")]
         "e1" => e1::cmd_e1(&args),
+        #[cfg(feature = "e1")]
         "e1-trace" => e1::cmd_trace(&args),
         "e3" => e3::cmd_e3(&args),
         "c20" => c20::cmd_c20(&args),
@@ -85,6 +91,13 @@ fn main() {
         }
     };
     std::process::exit(code);
+}
+
+pub fn write_replay(dir: &str, name: &str, j: &vcore::J) -> String {
+    let _ = std::fs::create_dir_all(dir);
+    let path = format!("{}/{}", dir, name);
+    let _ = std::fs::write(&path, j.pretty());
+    path
 }
 
 fn cmd_replay(args: &Args) -> i32 {
@@ -112,6 +125,7 @@ fn cmd_replay(args: &Args) -> i32 {
     let prop = j.get("property").and_then(|p| p.as_str()).unwrap_or("");
     let engine = j.get("engine").and_then(|p| p.as_str()).unwrap_or("");
     match (prop, engine) {
+        #[cfg(feature = "e1")]
         ("C09", e) if e.starts_with("E1") => e1::replay(&j, &path, args),
         ("C09", e) if e.starts_with("E3") => e3::replay(&j, &path, args),
         ("C20", _) => c20::replay(&j, &path, args),
